@@ -21,6 +21,8 @@ def main():
     types = we.group_types(cases + cases2)
     c.rng.shuffle(types)
     pkgs = we.make_packages(types, 24, sc)
+    for p in pkgs:      # records spelled as instances of generic records, defined locally or in an imported package
+        p.style = {"generics": ["none", "local", "imported"][p.idx % 3], "shorthand": p.idx % 2 == 1, "optional": "question", "prim_alias": p.idx % 4 == 1}
     notes = []
     good, bad = we.prepare(pkgs, yardl, home, notes=notes)
     for n in notes:
